@@ -423,9 +423,11 @@ public:
 	{
 		if (length() != b.length())
 			return false;
-		Enumerator e1(this->all()), e2(b.all());
-		for (; e1; ++e1, ++e2)
-			if (~e1 != ~e2 || *e1 != *e2) return false;
+		for (Enumerator e1(this->all()); e1; ++e1) // entry order depends on history and table size: look each key up
+		{
+			const T* v = b.find(~e1);
+			if (!v || *e1 != *v) return false;
+		}
 		return true;
 	}
 
